@@ -6,7 +6,7 @@
 //! operation had consumed/not yet written, and never yields wrong bytes; a closed handle
 //! answers `closed` forever; the standard handles survive `close`.
 
-use crate::device::{ErrKind, InFault, OutFault, Plan};
+use crate::device::{EACCES, EPIPE, ErrKind, FileFault, InFault, OutFault, Plan};
 use crate::script::{Opn, PathSpec, RRef, Script, WRef};
 use std::collections::BTreeMap;
 use std::path::PathBuf;
@@ -164,8 +164,59 @@ impl ModelOut {
     }
 }
 
+/// The model's copy of the file-fault plan (a `once` fault fires once per plan entry, whichever
+/// handle meets it).
+struct FilePlan {
+    entries: Vec<(String, bool, usize, FileFault, bool)>,
+    fired: Vec<String>,
+}
+
+enum Meet {
+    Nothing,
+    /// invisible: retry
+    Interrupted,
+    Error(i64),
+}
+
+fn errno_kind(errno: i32) -> i64 {
+    if errno == EACCES {
+        PERMISSION_DENIED
+    } else if errno == EPIPE {
+        BROKEN_PIPE
+    } else {
+        OTHER // EIO, ENOSPC: no ABI kind of their own
+    }
+}
+
+impl FilePlan {
+    fn meet(&mut self, name: &str, write: bool, offset: usize) -> Meet {
+        for entry in self.entries.iter_mut() {
+            if entry.0 == name && entry.1 == write && entry.2 == offset {
+                match entry.3 {
+                    | FileFault::Interrupted if !entry.4 => {
+                        entry.4 = true;
+                        self.fired.push(format!("file-{}:{}", if write { "write" } else { "read" }, entry.3.label()));
+                        return Meet::Interrupted;
+                    }
+                    | FileFault::HardOnce(errno) if !entry.4 => {
+                        entry.4 = true;
+                        self.fired.push(format!("file-{}:{}", if write { "write" } else { "read" }, entry.3.label()));
+                        return Meet::Error(errno_kind(errno));
+                    }
+                    | FileFault::HardForever(errno) => {
+                        self.fired.push(format!("file-{}:{}", if write { "write" } else { "read" }, entry.3.label()));
+                        return Meet::Error(errno_kind(errno));
+                    }
+                    | _ => {}
+                }
+            }
+        }
+        Meet::Nothing
+    }
+}
+
 enum ReaderState {
-    File { data: Vec<u8>, position: usize },
+    File { name: Option<String>, data: Vec<u8>, position: usize },
     Directory,
     Closed,
 }
@@ -211,6 +262,10 @@ pub fn predict(script: &Script, plan: &Plan, _dir: &PathBuf) -> Expectation {
         files.insert(name.clone(), Some(bytes.clone()));
     }
     let inputs: BTreeMap<String, Vec<u8>> = script.input_files.iter().cloned().collect();
+    let mut file_plan = FilePlan {
+        entries: plan.file_faults.iter().map(|(n, w, p, f)| (n.clone(), *w, *p, *f, false)).collect(),
+        fired: vec![],
+    };
     let mut readers: BTreeMap<usize, ReaderState> = BTreeMap::new();
     let mut writers: BTreeMap<usize, WriterState> = BTreeMap::new();
     let mut expectation = Expectation {
@@ -255,13 +310,30 @@ pub fn predict(script: &Script, plan: &Plan, _dir: &PathBuf) -> Expectation {
             }
         }
     }
-    fn file_upto(data: &[u8], position: &mut usize, limit: Option<u64>, until_newline: bool) -> Vec<u8> {
+    fn file_upto(
+        plan: &mut FilePlan, name: &Option<String>, data: &[u8], position: &mut usize, limit: Option<u64>,
+        until_newline: bool,
+    ) -> Result<Vec<u8>, i64> {
         let mut bytes = Vec::new();
-        while *position < data.len() {
+        loop {
             if let Some(limit) = limit {
                 if bytes.len() as u64 >= limit {
                     break;
                 }
+            }
+            // the byte at `position` is needed now: a fault at that file offset is met here
+            // (also at end of file: the read that would report EOF starts at that offset)
+            if let Some(name) = name {
+                loop {
+                    match plan.meet(name, false, *position) {
+                        | Meet::Nothing => break,
+                        | Meet::Interrupted => continue,
+                        | Meet::Error(kind) => return Err(kind),
+                    }
+                }
+            }
+            if *position >= data.len() {
+                break;
             }
             let byte = data[*position];
             *position += 1;
@@ -270,18 +342,21 @@ pub fn predict(script: &Script, plan: &Plan, _dir: &PathBuf) -> Expectation {
                 break;
             }
         }
-        bytes
+        Ok(bytes)
     }
 
     for (index, op) in script.ops.iter().enumerate() {
         let taken = match op {
             | Opn::OpenReader { path } => match path {
                 | PathSpec::In(name) => {
-                    readers.insert(index, ReaderState::File { data: inputs.get(name).cloned().unwrap_or_default(), position: 0 });
+                    readers.insert(
+                        index,
+                        ReaderState::File { name: Some(name.clone()), data: inputs.get(name).cloned().unwrap_or_default(), position: 0 },
+                    );
                     Taken::Ok
                 }
                 | PathSpec::DevNull => {
-                    readers.insert(index, ReaderState::File { data: vec![], position: 0 });
+                    readers.insert(index, ReaderState::File { name: None, data: vec![], position: 0 });
                     Taken::Ok
                 }
                 | PathSpec::Directory => {
@@ -326,7 +401,9 @@ pub fn predict(script: &Script, plan: &Plan, _dir: &PathBuf) -> Expectation {
                 let result: Result<Vec<u8>, i64> = match reader {
                     | RRef::Stdin => read_upto(&mut stdin, limit, line).map_err(abi_kind),
                     | RRef::Opened(i) => match readers.get_mut(i) {
-                        | Some(ReaderState::File { data, position }) => Ok(file_upto(data, position, limit, line)),
+                        | Some(ReaderState::File { name, data, position }) => {
+                            file_upto(&mut file_plan, name, data, position, limit, line)
+                        }
                         // a zero-byte read never reaches the device
                         | Some(ReaderState::Directory) if limit == Some(0) => Ok(vec![]),
                         | Some(ReaderState::Directory) => Err(OTHER),
@@ -346,8 +423,22 @@ pub fn predict(script: &Script, plan: &Plan, _dir: &PathBuf) -> Expectation {
                     | WRef::Stdout | WRef::Stderr => stdout.write_all(bytes),
                     | WRef::Opened(i) => match writers.get(i) {
                         | Some(WriterState::File(name)) => {
-                            files.get_mut(name).and_then(|f| f.as_mut()).map(|f| f.extend_from_slice(bytes));
-                            Ok(())
+                            let mut result = Ok(());
+                            'bytes: for byte in bytes {
+                                let offset = files.get(name).and_then(|f| f.as_ref()).map(|f| f.len()).unwrap_or(0);
+                                loop {
+                                    match file_plan.meet(name, true, offset) {
+                                        | Meet::Nothing => break,
+                                        | Meet::Interrupted => continue,
+                                        | Meet::Error(kind) => {
+                                            result = Err(kind);
+                                            break 'bytes;
+                                        }
+                                    }
+                                }
+                                files.get_mut(name).and_then(|f| f.as_mut()).map(|f| f.push(*byte));
+                            }
+                            result
                         }
                         | Some(WriterState::DevFull) if !bytes.is_empty() => Err(OTHER),
                         | Some(WriterState::DevFull) | Some(WriterState::DevNull) => Ok(()),
@@ -479,5 +570,6 @@ pub fn predict(script: &Script, plan: &Plan, _dir: &PathBuf) -> Expectation {
     expectation.files = files;
     expectation.in_faults_fired = stdin.fired;
     expectation.out_faults_fired = stdout.fired;
+    expectation.out_faults_fired.extend(file_plan.fired);
     expectation
 }
